@@ -215,12 +215,36 @@ func H15_nest() {
 	sv.Reach("converted")
 }
 
+type hCyc struct {
+	N    float64 `yae:"n"`
+	Next *hCyc   `yae:"next"`
+}
+
 // H15_errors: unsupported or inconsistent data is reported as an error.
 func H15_errors() {
 	var v interface{}
 	wantErr := true
 	var nilp *hLeaf
-	switch sv.Choice("case", 22) {
+	k := sv.Choice("case", 25)
+	deep := k == 22 || k == 23
+	switch k {
+	case 22: // nesting beyond the depth limit (100)
+		var x interface{} = 1.5
+		for i := 0; i < 150; i++ {
+			x = []interface{}{x}
+		}
+		v = x
+	case 23: // a cyclic structure never ends
+		n := &hCyc{N: 1}
+		n.Next = n
+		v = n
+	case 24: // deep, but within the limit
+		var x interface{} = 1.5
+		for i := 0; i < 40; i++ {
+			x = []interface{}{x}
+		}
+		v = x
+		wantErr = false
 	case 18: // kinds with no counterpart in the language
 		v = uintptr(7)
 	case 19:
@@ -281,6 +305,12 @@ func H15_errors() {
 	if wantErr {
 		sv.Reach("bad-input")
 		sv.Assert("reported-as-an-error", err != nil && r == nil)
+		var ty *types.Type
+		cls = sv.Outcome(func() { ty, err = conv.TypeOf(v) })
+		sv.Assert("type-conversion-does-not-panic", cls == "ok")
+		if deep {
+			sv.Assert("nesting-beyond-the-limit-has-no-type-either", cls != "ok" || (err != nil && ty == nil))
+		}
 	} else {
 		sv.Reach("good-input")
 		sv.Assert("accepted", err == nil && r != nil)
@@ -319,6 +349,30 @@ func H15_env() {
 			ok = ok && found && RefTypeEq(ty, v.Type)
 		})
 		sv.Assert("map-values-of-equal-go-types-conform", ok)
+	}
+	// a map environment with a concrete element type: each entry's type is
+	// the type of that entry's value (nil pointers included), the same from
+	// TypeEnvOf, ValEnvOf and TypeOf
+	one := 1.5
+	pick := func(name string) *float64 {
+		if sv.Bool(name) {
+			return &one
+		}
+		return nil
+	}
+	m3 := map[string]hPtrs{"a": {P: pick("a.p")}, "b": {P: pick("b.p"), Q: &hLeaf{}}}
+	te3, e3 := conv.TypeEnvOf(m3)
+	ve3, e4 := conv.ValEnvOf(m3)
+	sv.Assert("typed-map-environments-built", e3 == nil && e4 == nil)
+	if e3 == nil && e4 == nil {
+		ok = true
+		te3.ForEach(func(name string, ty *types.Type) {
+			v, found := ve3.Get(name)
+			ok = ok && found && RefTypeEq(ty, v.Type)
+			t1, e := conv.TypeOf(m3[name])
+			ok = ok && e == nil && RefTypeEq(ty, t1)
+		})
+		sv.Assert("entry-type-is-the-type-of-that-entry's-value", ok)
 	}
 	sv.Reach("checked")
 }
